@@ -9,6 +9,8 @@ import Driver.Producer
 import Driver.EsSink
 import Driver.RateLimit
 import Driver.Flow
+import Driver.Supervise
+import Driver.Timeout
 /-!
 fbdriver: reads `<id>\t<input>\t<impl observation>` lines on stdin, runs the model of the chosen
 component on `<input>` and prints one verdict line per case:
@@ -32,6 +34,8 @@ def dispatch (comp : String) : Option (String → String → Verdict) :=
   | "producer" => some Producer.check
   | "essink" => some EsSink.check
   | "ratelimit" => some Limiter.check
+  | "supervise" => some Supervisor.check
+  | "timeout" => some MainLoop.check
   | "flow-C01" => some (ExecTrace.check "C01")
   | "flow-C02" => some (ExecTrace.check "C02")
   | "flow-C03" => some (ExecTrace.check "C03")
